@@ -119,8 +119,8 @@ type C19Expect struct {
 	Version string // server.Version
 	GOOS    string
 	GOARCH  string
-	// FreshInstance: the data directory was new, so the instance id must be a
-	// freshly generated random UUID (v4).
+	// FreshInstance: the data directory was new (wording of the message only;
+	// the instance id must look like a random version-4 UUID in every report).
 	FreshInstance bool
 }
 
@@ -285,8 +285,20 @@ func C19Judge(rq C19Request, needles map[string]string, ex C19Expect) (issues []
 	eq("os.architecture", ex.GOARCH, "os", "architecture")
 	// os.version / os.platform: only their kind and the absence of needles
 	// are judged (the documentation does not say how the version is spelled)
-	if id, ok := str("instance_id"); ok && ex.FreshInstance && !c19UUID.MatchString(id) {
-		issues = append(issues, C19Issue{"C19:instance-id-not-random-uuid", fmt.Sprintf("instance_id %q of a fresh installation is not a version-4 UUID", id)})
+	// The one identifying field is documented as "random UUID, persistent per
+	// installation": in every report it must be there and must look like one
+	// (version 4, RFC 4122 variant) — on a fresh data directory and on one
+	// that already holds an id file alike (only the collector writes that file).
+	if id, ok := str("instance_id"); !ok {
+		if _, present := obj["instance_id"]; !present {
+			issues = append(issues, C19Issue{"C19:instance-id-missing", "telemetry report has no instance_id (documented: random UUID)"})
+		}
+	} else if !c19UUID.MatchString(id) {
+		what := "an installation"
+		if ex.FreshInstance {
+			what = "a fresh installation"
+		}
+		issues = append(issues, C19Issue{"C19:instance-id-not-random-uuid", fmt.Sprintf("instance_id %q of %s is not a version-4 UUID (documented: random UUID)", id, what)})
 	}
 	return issues, keys
 }
